@@ -87,6 +87,11 @@ def family(tier):
         add(f"kw_property_{kw}", schema(["Start: [V!]"], [ty("V", [f"{kw}: Int", "name: String"])]))
         add(f"kw_edge_and_parameter_{kw}", schema(["Start: [V!]"], [ty("V", ["name: String", f"{kw}({kw}: Int): V"])]))
         add(f"kw_entrypoint_{kw}", schema([f"{kw}({kw}: Int): [V!]"], [ty("V", ["name: String"])]))
+        if kw[0].islower() and kw.capitalize() != kw:
+            # names that only become a keyword after the generator changes their case
+            K = kw.capitalize()
+            add(f"kw_capitalized_type_{K}", schema([f"Start: [{K}!]"], [ty(K, ["name: String", f"next: {K}", f"more(x: Int): [{K}!]"])]))
+            add(f"kw_capitalized_fields_{K}", schema([f"{K}({K}: Int): [V!]"], [ty("V", [f"{K}: Int", "name: String"]), ty("W", [f"{K}({K}: String): V", "w: Int"])]))
     # names that differ only in case or underscores
     names = VARIANTS_QUICK + (VARIANTS_MORE if tier == "thorough" else [])
     for i, a in enumerate(names):
@@ -94,10 +99,10 @@ def family(tier):
             add(f"two_types_{a}_{b}", schema([f"Start: [{a}!]", f"Other: {b}"], [ty(a, ["name: String", f"to: {b}"]), ty(b, ["name: String", f"to: {a}"])]))
             add(f"two_properties_{a}_{b}", schema(["Start: [V!]"], [ty("V", [f"{a}: Int", f"{b}: String"])]))
             add(f"two_entrypoints_{a}_{b}", schema([f"{a}: [V!]", f"{b}(x: Int): V"], [ty("V", ["name: String"])]))
+            add(f"two_parameters_{a}_{b}", schema([f"Start({a}: Int, {b}: String): [V!]"], [ty("V", ["name: String", f"next({a}: Int, {b}: Int): V"])]))
             if tier == "thorough":
                 add(f"two_edges_{a}_{b}", schema(["Start: [V!]"], [ty("V", ["name: String", f"{a}: V", f"{b}(x: Int): [V!]"])]))
                 add(f"property_and_edge_{a}_{b}", schema(["Start: [V!]"], [ty("V", [f"{a}: Int", f"{b}: V"])]))
-                add(f"two_parameters_{a}_{b}", schema([f"Start({a}: Int, {b}: String): [V!]"], [ty("V", ["name: String", f"next({a}: Int, {b}: Int): V"])]))
                 add(f"type_and_property_of_other_type_{a}_{b}", schema([f"Start: [{a}!]"], [ty(a, ["name: String", "w: W"]), ty("W", [f"{b}: Int", f"to_{b}: {a}"])]))
     return fam
 
@@ -235,7 +240,7 @@ def run(a, d):
         ev = dict(property_id=prop, tier=tier, seed=int(os.environ.get("VERIF_SEED", "0") or 0), level="other",
                   coverage=dict(explanation="Bounded stand-in, NOT a proof and not contract-based: no contract on the stubgen functions can express 'rustc accepts the generated crate', so the statement itself is evaluated on an enumerated family of schemas. The real generator built from /repo's working tree is run on each schema; every generated stub is compiled, tests included, with `cargo test --no-run --offline` against the working tree's trustfall crate (all stubs as modules of one crate; modules with errors are dropped and the rest recompiled so that later-phase errors are not masked). A documented name-conflict refusal of the generator counts as 'no stub generated'.",
                                 evaluations=len(outcome), distinct_nontrivial=counts.get("compiled", 0) + counts.get("does-not-compile", 0),
-                                rule="one case = one schema of the enumerated family (scalars x 8 modifier shapes as properties/entrypoint parameters/edge parameters, default values, interfaces, edge cardinalities, names equal to identifiers the generated code uses, every strict/reserved/weak Rust keyword as type/property/edge+parameter/entrypoint name, pairs of names differing only in case or underscores as two types/two properties/two entrypoints (thorough: also two edges, property+edge, two parameters, type+property)); non-trivial = a stub was generated and handed to rustc",
+                                rule="one case = one schema of the enumerated family (scalars x 8 modifier shapes as properties/entrypoint parameters/edge parameters, default values, interfaces, edge cardinalities, names equal to identifiers the generated code uses, every strict/reserved/weak Rust keyword as type/property/edge+parameter/entrypoint name, pairs of names differing only in case or underscores as two types/two properties/two entrypoints/two parameters (thorough: also two edges, property+edge, type+property); capitalized keywords as type and field names); non-trivial = a stub was generated and handed to rustc",
                                 samples=[dict(schema=n, outcome=outcome[n][0]) for n in list(outcome)[:6]] + [dict(schema=n, text=texts[n]) for n in comp[:2]],
                                 outcome_counts=counts, refused=[n for n, (c, _) in outcome.items() if c == "refused"][:400], rejected_by_schema_validation=[n for n, (c, _) in outcome.items() if c == "rejected"][:400],
                                 known_findings=[dict(schema=n, outcome=c, first_error=det) for n, c, det, _ in known],
